@@ -1572,13 +1572,17 @@ class TT():
                 else:
                     core = tn.einsum('...i,ijk->...jk', core, c)
                     so_far *= c.shape[1]
-                if so_far == original_shape[k]:
+                if k < len(original_shape) and so_far == original_shape[k]:
                     core = tn.reshape(
                         core, [core.shape[0], -1, core.shape[-1]])
                     cores_new.append(core)
                     core = None
                     k += 1
-            if k != len(original_shape):
+            if core is not None and so_far == 1 and len(cores_new) > 0:
+                # trailing QTT cores of mode size one that original_shape does not list: they only hold a factor
+                cores_new[-1] = tn.einsum('ijk,kl->ijl', cores_new[-1], tn.reshape(core, [core.shape[0], core.shape[-1]]))
+                core = None
+            if k != len(original_shape) or core is not None:
                 raise ShapeMismatch('Mode sizes do not match.')
         return TT(cores_new)
 
